@@ -62,7 +62,13 @@ Multi      == {"vnormal", "vt", "skewnormal", "iwishart"}
 (* tridiagonal: entries a11 a12 a22 a23 a33, a13 = 0; InverseWishart 3x3: S diagonal)     *)
 OddDim     == {"vnormal1", "vnormal3", "vt1", "vt3", "skewnormal1", "iid_normal1", "iid_normal3", "iid_exp3",
                "id_normal1", "id_nen3", "iwishart1", "iwishart3"}
-AllFamilies == Continuous \cup Discrete \cup Wrapped \cup Multi \cup OddDim
+(* mixtures (statistics/generic.Mixture behind the scalar, vector and matrix wrappers) with 1, 2 *)
+(* and 3 components, un-normalised, very small and zero input weights, and a nested mixture     *)
+(* hidden Markov models with 2 states over a sequence of length 2: scalar emissions (vector   *)
+(* HMM, x = (x_1, x_2)) and 1-d vector emissions (matrix HMM, x = 2x1 matrix)                   *)
+MixFams    == {"mix1_normal", "mix3_nen", "mixnest", "vmix1_vnormal", "vmix2_vn1", "mmix1_iw1", "mmix2_iw1",
+               "hmm2_nn", "mhmm2_vn1"}
+AllFamilies == Continuous \cup Discrete \cup Wrapped \cup Multi \cup OddDim \cup MixFams
 
 (* number of scalar parameters (term variables x_1 .. x_NP) *)
 NP(f) ==
@@ -81,12 +87,18 @@ NP(f) ==
     [] f = "vnormal3" -> 8
     [] f = "vt3" -> 9
     [] f = "iid_exp3" -> 1
+    [] f \in {"mix1_normal", "mmix1_iw1"} -> 3
+    [] f \in {"vmix1_vnormal", "vmix2_vn1", "mmix2_iw1"} -> 6
+    [] f = "mix3_nen" -> 8
+    [] f \in {"hmm2_nn", "mhmm2_vn1"} -> 10
+    [] f = "mixnest" -> 9
 
 (* dimension of the evaluation point *)
 XDim(f) == CASE f \in {"iid_normal", "iid_exp", "id_normal_exp", "vnormal", "vt", "skewnormal"} -> 2
              [] f = "iwishart" -> 3        \* x11, x12 (= x21), x22
              [] f \in {"vnormal3", "vt3", "iid_normal3", "iid_exp3", "id_nen3"} -> 3
              [] f = "iwishart3" -> 5       \* x11, x12, x22, x23, x33 (x13 = 0)
+             [] f \in {"vmix1_vnormal", "hmm2_nn", "mhmm2_vn1"} -> 2
              [] OTHER -> 1
 
 P(i)      == X(i)
@@ -135,6 +147,17 @@ Valid(f, p) ==
     [] f = "vt3"                  -> Pos(p[1]) /\ SPD3T(p[5], p[6], p[7], p[8], p[9])
     [] f = "iwishart1"            -> Pos(p[1]) /\ Pos(p[2])                 \* nu > d-1 = 0
     [] f = "iwishart3"            -> RLt(I(2), p[1]) /\ Pos(p[2]) /\ Pos(p[3]) /\ Pos(p[4])
+    (* mixtures: weights are non-negative, not all zero (a single zero weight is not used) *)
+    [] f = "mix1_normal"          -> Pos(p[1]) /\ Pos(p[3])
+    [] f = "mix3_nen"             -> NonNeg(p[1]) /\ NonNeg(p[2]) /\ NonNeg(p[3]) /\ Pos(RAdd(p[1], RAdd(p[2], p[3])))
+                                     /\ Pos(p[5]) /\ Pos(p[6]) /\ Pos(p[8])
+    [] f = "mixnest"              -> Pos(p[1]) /\ Pos(p[2]) /\ Pos(p[3]) /\ Pos(p[4]) /\ Pos(p[6]) /\ Pos(p[7]) /\ Pos(p[9])
+    [] f = "vmix1_vnormal"        -> Pos(p[1]) /\ SPD2(p[4], p[5], p[6])
+    [] f = "vmix2_vn1"            -> Pos(p[1]) /\ Pos(p[2]) /\ Pos(p[4]) /\ Pos(p[6])
+    [] f = "mmix1_iw1"            -> Pos(p[1]) /\ Pos(p[2]) /\ Pos(p[3])
+    [] f = "mmix2_iw1"            -> Pos(p[1]) /\ Pos(p[2]) /\ Pos(p[3]) /\ Pos(p[4]) /\ Pos(p[5]) /\ Pos(p[6])
+    (* pi_1 pi_2 | t_11 t_12 t_21 t_22 (un-normalised, positive) | emission parameters *)
+    [] f \in {"hmm2_nn", "mhmm2_vn1"} -> (\A i \in 1..6 : Pos(p[i])) /\ Pos(p[8]) /\ Pos(p[10])
 
 (* why a tuple is invalid, where the reason matters for a known finding: a   *)
 (* positive SEMI-definite (singular) scale matrix is not a valid parameter     *)
@@ -229,7 +252,31 @@ ParamSetOdd(f) ==
                             \cup {<<I(2), I(1), I(1), I(1)>>, <<I(1), I(1), I(1), I(1)>>, <<I(3), I(1), I(0), I(1)>>, <<I(3), I(-1), I(1), I(1)>>}
     [] OTHER -> {}
 
-ParamSet(f) == IF f \in OddDim THEN ParamSetOdd(f) ELSE ParamSet0(f) \cup (IF Deep THEN DeepExtra(f) ELSE {})
+Tiny == R(1, 1000000)
+ParamSetMix(f) ==
+  CASE f = "mix1_normal"   -> Cross3({I(1), R(1, 2), I(3), Tiny}, {I(0), I(1)}, {I(1), I(2)}) \cup {<<I(-1), I(0), I(1)>>, <<R(1, 2), I(0), I(0)>>}
+    [] f = "mix3_nen"      -> {<<w[1], w[2], w[3], I(0), s, I(2), I(1), I(2)>> :
+                                 w \in {<<R(1, 4), R(1, 4), R(1, 2)>>, <<I(1), I(2), I(3)>>, <<I(2), I(0), I(1)>>, <<Tiny, I(1), I(1)>>, <<I(0), I(0), I(5)>>},
+                                 s \in {R(1, 2), I(1)}}
+                              \cup {<<I(1), I(-1), I(1), I(0), I(1), I(1), I(0), I(1)>>, <<I(1), I(1), I(1), I(0), I(-1), I(1), I(0), I(1)>>,
+                                    <<I(1), I(1), I(1), I(0), I(1), I(0), I(0), I(1)>>}
+    [] f = "mixnest"       -> {<<v[1], v[2], w[1], w[2], I(0), I(1), l, I(1), R(1, 2)>> :
+                                 v \in {<<R(1, 2), R(1, 2)>>, <<I(3), I(1)>>}, w \in {<<R(1, 4), R(3, 4)>>, <<I(2), I(1)>>}, l \in {I(1), I(3)}}
+                              \cup {<<I(1), I(1), I(-1), I(1), I(0), I(1), I(1), I(1), I(1)>>, <<I(-1), I(1), I(1), I(1), I(0), I(1), I(1), I(1), I(1)>>,
+                                    <<I(1), I(1), I(1), I(1), I(0), I(1), I(1), I(1), I(0)>>}
+    [] f = "vmix1_vnormal" -> {<<w, I(0), I(1), c[1], c[2], c[3]>> : w \in {I(1), R(1, 2), I(3), Tiny}, c \in {<<I(1), I(0), I(1)>>, <<I(2), I(1), I(1)>>}}
+                              \cup {<<I(-1), I(0), I(0), I(1), I(0), I(1)>>, <<I(1), I(0), I(0), I(1), I(2), I(1)>>}
+    [] f = "vmix2_vn1"     -> {<<w[1], w[2], I(0), s, I(1), I(2)>> : w \in {<<R(1, 4), R(3, 4)>>, <<I(3), I(1)>>, <<Tiny, I(1)>>}, s \in {R(1, 2), I(1)}}
+                              \cup {<<I(1), I(-1), I(0), I(1), I(1), I(2)>>, <<I(1), I(1), I(0), I(0), I(1), I(2)>>}
+    [] f = "mmix1_iw1"     -> Cross3({I(1), R(1, 2), I(3)}, {I(1), I(3)}, {R(1, 2), I(2)}) \cup {<<I(-1), I(1), I(1)>>, <<I(1), I(0), I(1)>>}
+    [] f = "mmix2_iw1"     -> {<<w[1], w[2], I(1), s, I(3), I(2)>> : w \in {<<R(1, 4), R(3, 4)>>, <<I(3), I(1)>>, <<Tiny, I(1)>>}, s \in {R(1, 2), I(1)}}
+                              \cup {<<I(1), I(-1), I(1), I(1), I(3), I(2)>>, <<I(1), I(1), I(0), I(1), I(3), I(2)>>}
+
+HmmW == {<<R(1, 2), R(1, 2), R(1, 2), R(1, 2), R(1, 4), R(3, 4)>>, <<I(1), I(3), I(2), I(1), I(1), I(1)>>, <<I(1), Tiny, R(9, 10), R(1, 10), I(3), I(1)>>}
+ParamSetHmm(f) == {w \o <<I(0), s, I(1), I(2)>> : w \in HmmW, s \in {R(1, 2), I(1)}}
+                  \cup {<<I(1), I(1), I(1), I(1), I(1), I(1), I(0), I(0), I(1), I(1)>>, <<I(1), I(1), I(1), I(1), I(1), I(1), I(0), I(1), I(1), I(-1)>>}
+
+ParamSet(f) == IF f \in {"hmm2_nn", "mhmm2_vn1"} THEN ParamSetHmm(f) ELSE IF f \in MixFams THEN ParamSetMix(f) ELSE IF f \in OddDim THEN ParamSetOdd(f) ELSE ParamSet0(f) \cup (IF Deep THEN DeepExtra(f) ELSE {})
 
 (* valid tuples first (the driver and the Set/Clone actions address them by index) *)
 ParamList(f) == SetSeq({p \in ParamSet(f) : Valid(f, p)}) \o SetSeq({p \in ParamSet(f) : ~Valid(f, p)})
@@ -282,6 +329,8 @@ Supp(f, p, xs) ==
     [] f = "iid_exp3"    -> IF xs[1].n < 0 \/ xs[2].n < 0 \/ xs[3].n < 0 THEN "out" ELSE "in"
     [] f = "id_nen3"     -> IF xs[2].n < 0 THEN "out" ELSE "in"
     [] f = "iwishart1"   -> IF Pos(x) THEN "in" ELSE "reject"
+    [] f \in {"mix1_normal", "mix3_nen", "mixnest", "vmix1_vnormal", "vmix2_vn1", "hmm2_nn", "mhmm2_vn1"} -> "in"
+    [] f \in {"mmix1_iw1", "mmix2_iw1"} -> IF Pos(x) THEN "in" ELSE "reject"
     [] f = "iwishart3"   -> IF SPD3T(xs[1], xs[2], xs[3], xs[4], xs[5]) THEN "in" ELSE "reject"
 
 Class(s) == CASE s = "in" -> "finite" [] s = "out" -> "neginf" [] s = "bd" -> "boundary"
@@ -294,11 +343,15 @@ Variants(f) == CASE f = "categorical"    -> <<"k0", "k1", "k2">>
                  [] f = "binomial"       -> <<"std", "t0", "t1">>
                  [] f = "mix_normal_exp" -> <<"a", "ab">>
                  [] f = "mix_exp_pareto" -> <<"a", "ab">>
+                 [] f = "mix3_nen"       -> <<"ac", "abc">>
+                 [] f = "mixnest"        -> <<"a", "ab">>
                  [] OTHER -> <<"std">>
 Variant(f, p, xs) ==
   CASE f = "categorical"    -> IF IsInt(xs[1]) /\ xs[1].n \in 0..2 THEN <<"k0", "k1", "k2">>[xs[1].n + 1] ELSE "k0"
     [] f = "mix_normal_exp" -> IF xs[1].n < 0 THEN "a" ELSE "ab"
     [] f = "mix_exp_pareto" -> IF RLt(xs[1], p[4]) THEN "a" ELSE "ab"
+    [] f = "mix3_nen"       -> IF xs[1].n < 0 THEN "ac" ELSE "abc"
+    [] f = "mixnest"        -> IF xs[1].n < 0 THEN "a" ELSE "ab"
     [] f = "geometric"      -> IF REq(p[1], I(1)) THEN "p1" ELSE "std"
     [] f = "binomial"       -> IF p[1].n = 0 THEN "t0" ELSE IF REq(p[1], I(1)) THEN "t1" ELSE "std"
     [] OTHER -> "std"
@@ -432,6 +485,21 @@ Deviations(f, v) ==
 (* log(w1/(w1+w2) exp(l1) + w2/(w1+w2) exp(l2)) *)
 Mix2(w1, w2, l1, l2) == Log(Add(Mul(Div(w1, Add(w1, w2)), Exp(l1)), Mul(Div(w2, Add(w1, w2)), Exp(l2))))
 Mix1(w1, w2, l1)     == Add(Log(Div(w1, Add(w1, w2))), l1)
+(* general contract: LogPdf(x) = log sum_k (w_k / sum w) exp(LogPdf_k(x)) over the components whose support holds x *)
+WSum3(w1, w2, w3)    == Add(Add(w1, w2), w3)
+Mix3(w1, w2, w3, l1, l2, l3) ==
+  Log(Add(Add(Mul(Div(w1, WSum3(w1, w2, w3)), Exp(l1)), Mul(Div(w2, WSum3(w1, w2, w3)), Exp(l2))), Mul(Div(w3, WSum3(w1, w2, w3)), Exp(l3))))
+Mix3ac(w1, w2, w3, l1, l3) ==
+  Log(Add(Mul(Div(w1, WSum3(w1, w2, w3)), Exp(l1)), Mul(Div(w3, WSum3(w1, w2, w3)), Exp(l3))))
+(* HMM, 2 states, sequence of length 2: sum over the 4 hidden paths of pi_i e_i(x1) T_ij e_j(x2), *)
+(* pi and the rows of T normalised; eik = log emission density of state i at x_k                 *)
+HmmLP(pi1, pi2, t11, t12, t21, t22, e11, e12, e21, e22) ==
+  LET sp == Add(pi1, pi2)  r1 == Add(t11, t12)  r2 == Add(t21, t22)
+      path(pi, t, r, ea, eb) == Mul(Mul(Div(pi, sp), Div(t, r)), Exp(Add(ea, eb)))
+  IN Log(Add(Add(path(pi1, t11, r1, e11, e12), path(pi1, t12, r1, e11, e22)),
+             Add(path(pi2, t21, r2, e21, e12), path(pi2, t22, r2, e21, e22))))
+(* a single component: its weight is normalised to w/w = 1 *)
+MixOne(w, l1)        == Add(Log(Div(w, w)), l1)
 
 LP(f, v) ==
   LET x == XV(f, 1)  x2 == XV(f, 2)  x3 == XV(f, 3) IN
@@ -477,6 +545,24 @@ LP(f, v) ==
     [] f = "vt"          -> LPVT(P(1), P(2), P(3), P(4), P(5), P(6), x, x2)
     [] f = "skewnormal"  -> LPSkewNormal(x, x2)
     [] f = "iwishart"    -> LPIWishart(P(1), P(2), P(3), P(4), x, x2, x3)
+    (* ---- mixtures with 1, 3 components, nested, vector and matrix valued *)
+    [] f = "mix1_normal" -> MixOne(P(1), LPNormal(P(2), P(3), x))
+    [] f = "mix3_nen"    -> IF v = "abc" THEN Mix3(P(1), P(2), P(3), LPNormal(P(4), P(5), x), LPExp(P(6), x), LPNormal(P(7), P(8), x))
+                            ELSE Mix3ac(P(1), P(2), P(3), LPNormal(P(4), P(5), x), LPNormal(P(7), P(8), x))
+    [] f = "mixnest"     -> LET inner == IF v = "ab" THEN Mix2(P(3), P(4), LPNormal(P(5), P(6), x), LPExp(P(7), x))
+                                         ELSE Mix1(P(3), P(4), LPNormal(P(5), P(6), x))
+                            IN Mix2(P(1), P(2), inner, LPNormal(P(8), P(9), x))
+    [] f = "vmix1_vnormal" -> MixOne(P(1), LPVNormal(P(2), P(3), P(4), P(5), P(6), x, x2))
+    [] f = "vmix2_vn1"   -> Mix2(P(1), P(2), LPVNormalGen(1, Log(P(4)), Div(Sq(Sub(x, P(3))), P(4))),
+                                             LPVNormalGen(1, Log(P(6)), Div(Sq(Sub(x, P(5))), P(6))))
+    [] f = "mmix1_iw1"   -> MixOne(P(1), LPIWishartGen(1, P(2), Log(P(3)), Log(x), Div(P(3), x)))
+    [] f = "mmix2_iw1"   -> Mix2(P(1), P(2), LPIWishartGen(1, P(3), Log(P(4)), Log(x), Div(P(4), x)),
+                                             LPIWishartGen(1, P(5), Log(P(6)), Log(x), Div(P(6), x)))
+    [] f = "hmm2_nn"     -> HmmLP(P(1), P(2), P(3), P(4), P(5), P(6), LPNormal(P(7), P(8), x), LPNormal(P(7), P(8), x2),
+                                  LPNormal(P(9), P(10), x), LPNormal(P(9), P(10), x2))
+    [] f = "mhmm2_vn1"   -> LET e(m, vv, y) == LPVNormalGen(1, Log(vv), Div(Sq(Sub(y, m)), vv)) IN
+                            HmmLP(P(1), P(2), P(3), P(4), P(5), P(6), e(P(7), P(8), x), e(P(7), P(8), x2),
+                                  e(P(9), P(10), x), e(P(9), P(10), x2))
     (* ---- dimension 1 and 3 *)
     [] f = "vnormal1"    -> LPVNormalGen(1, Log(P(2)), Div(Sq(Sub(x, P(1))), P(2)))
     [] f = "vnormal3"    -> LPVNormalGen(3, Log(Det3T(P(4), P(5), P(6), P(7), P(8))),
@@ -515,6 +601,8 @@ DiffVars(f) ==
     [] f = "vnormal3"    -> <<1, 2, 3>>
     [] f = "vt3"         -> <<1, 2, 3, 4>>
     [] f = "iwishart3"   -> <<1>>
+    [] f = "vmix1_vnormal" -> <<1, 2, 3>>
+    [] f \in {"hmm2_nn", "mhmm2_vn1"} -> <<1, 3, 7, 8>>
     [] OTHER -> [i \in 1..NP(f) |-> i]
 
 (* ------------------------------------------------------------------ CDFs *)
@@ -554,6 +642,8 @@ Side(f, p, xs) ==
 Kink(f, p, xs) == f = "laplace" /\ REq(xs[1], p[1])
 
 (* ------------------------------------------- layout of the parameter vector *)
+(* normalised log-weight of a single component: log w - log w (not representable for w <= 0) *)
+LogW1 == Sub(Log(P(1)), Log(P(1)))
 PVec(f) ==
   CASE f = "binomial"    -> <<Log(P(1)), P(2)>>
     [] f = "categorical" -> <<Log(P(1)), Log(P(2)), Log(P(3))>>
@@ -572,6 +662,19 @@ PVec(f) ==
     [] f = "vnormal3"    -> <<P(1), P(2), P(3), P(4), P(5), Zero, P(5), P(6), P(7), Zero, P(7), P(8)>>
     [] f = "vt3"         -> <<P(1), P(2), P(3), P(4), P(5), P(6), Zero, P(6), P(7), P(8), Zero, P(8), P(9)>>
     [] f = "iwishart1"   -> <<P(2), P(1)>>
+    [] f = "mix1_normal" -> <<LogW1, P(2), P(3)>>
+    [] f = "mix3_nen"    -> <<Log(Div(P(1), WSum3(P(1), P(2), P(3)))), Log(Div(P(2), WSum3(P(1), P(2), P(3)))),
+                              Log(Div(P(3), WSum3(P(1), P(2), P(3)))), P(4), P(5), P(6), P(7), P(8)>>
+    [] f = "mixnest"     -> <<Log(Div(P(1), Add(P(1), P(2)))), Log(Div(P(2), Add(P(1), P(2)))),
+                              Log(Div(P(3), Add(P(3), P(4)))), Log(Div(P(4), Add(P(3), P(4)))), P(5), P(6), P(7), P(8), P(9)>>
+    [] f = "vmix1_vnormal" -> <<LogW1, P(2), P(3), P(4), P(5), P(5), P(6)>>
+    [] f = "vmix2_vn1"   -> <<Log(Div(P(1), Add(P(1), P(2)))), Log(Div(P(2), Add(P(1), P(2)))), P(3), P(4), P(5), P(6)>>
+    [] f \in {"hmm2_nn", "mhmm2_vn1"} ->
+         <<Log(Div(P(1), Add(P(1), P(2)))), Log(Div(P(2), Add(P(1), P(2)))),
+           Log(Div(P(3), Add(P(3), P(4)))), Log(Div(P(4), Add(P(3), P(4)))),
+           Log(Div(P(5), Add(P(5), P(6)))), Log(Div(P(6), Add(P(5), P(6)))), P(7), P(8), P(9), P(10)>>
+    [] f = "mmix1_iw1"   -> <<LogW1, P(3), P(2)>>
+    [] f = "mmix2_iw1"   -> <<Log(Div(P(1), Add(P(1), P(2)))), Log(Div(P(2), Add(P(1), P(2)))), P(4), P(3), P(6), P(5)>>
     [] f = "iwishart3"   -> <<P(2), Zero, Zero, Zero, P(3), Zero, Zero, Zero, P(4), P(1)>>
     [] OTHER -> [i \in 1..NP(f) |-> P(i)]
 
@@ -645,7 +748,18 @@ FarExp(f, p) == CASE f \in {"pareto", "gpareto", "gev"} -> 30
 VarRec(f, v) == [v |-> v, lp |-> LP(f, v),
                  dlp |-> [i \in 1..Len(DiffVars(f)) |-> D(LP(f, v), DiffVars(f)[i])],
                  cdf |-> CDF(f, v), dev |-> Deviations(f, v)]
-FamRec(f) == [k |-> "fam", fam |-> f, np |-> NP(f), xdim |-> XDim(f), params |-> PL[f], nvalid |-> NValid[f],
+(* mixtures: groups of entries of the parameter vector that are log-weights (each group must *)
+(* sum to one after exp), and the parameters that are the raw weights of the OUTER mixture    *)
+(* (the driver writes them into an exported configuration and imports it again)                *)
+WGroups(f) == CASE f \in {"mix1_normal", "vmix1_vnormal", "mmix1_iw1"} -> <<<<1, 1>>>>
+                [] f \in {"mix_normal_exp", "mix_exp_pareto", "vmix2_vn1", "mmix2_iw1"} -> <<<<1, 2>>>>
+                [] f = "mix3_nen" -> <<<<1, 3>>>>
+                [] f = "mixnest"  -> <<<<1, 2>>, <<3, 4>>>>
+                [] f \in {"hmm2_nn", "mhmm2_vn1"} -> <<<<1, 2>>, <<3, 4>>, <<5, 6>>>>
+                [] OTHER -> <<>>
+RawWeights(f) == IF WGroups(f) = <<>> \/ f \in {"hmm2_nn", "mhmm2_vn1"} THEN <<>> ELSE [i \in 1..(WGroups(f)[1][2]) |-> i]
+
+FamRec(f) == [k |-> "fam", wgroups |-> WGroups(f), rawweights |-> RawWeights(f), fam |-> f, np |-> NP(f), xdim |-> XDim(f), params |-> PL[f], nvalid |-> NValid[f],
               variants |-> [i \in 1..Len(Variants(f)) |-> VarRec(f, Variants(f)[i])],
               pvec |-> PVec(f), dv |-> DiffVars(f), hascdf |-> HasCdf(f),
               disc |-> (f \in Discrete), exactpmf |-> ExactPmf(f)]
